@@ -321,6 +321,11 @@ def handleLine (line : String) : String :=
     | _ =>
       match decProgram j with
       | .error e => (Json.mkObj [("error", Json.str e)]).compress
-      | .ok p => (encTrace p.sameIds p.ops (decNames j) (runProgramV p).2).compress
+      | .ok p =>
+        -- a DryRun container hands `reflect.Zero` of every result type to dig: a value-typed error result is then a
+        -- non-nil error although nothing ran.  Not modelled; such programs are refused, not answered wrongly.
+        if p.cfg.dry && !p.ctx.forced.isEmpty then
+          (Json.mkObj [("error", Json.str "unmodelled: DryRun with a value-typed error result")]).compress
+        else (encTrace p.sameIds p.ops (decNames j) (runProgramV p).2).compress
 
 end Dig
